@@ -311,8 +311,12 @@ type Query struct {
 	K       int
 	MaxDist float64 // <0: not given
 	F       *Filter
-	BufCap  int // <0: nil buffer
+	BufCap  int // -1: nil buffer; Chain: the caller's previous result is handed back as the buffer
 }
+
+// Chain is the BufCap of a query that reuses the previous result of the same
+// caller as its buffer (the documented idiom: buf = tree.InBound(buf, box)).
+const Chain = -2
 
 const (
 	QFind = iota
@@ -359,6 +363,8 @@ func (w *World) DrawQuery(s *core.Source, kind int) *Query {
 		}
 		if s.Chance(1, 2, "buf") {
 			q.BufCap = s.Range(0, 12, "bufcap")
+		} else if s.Chance(1, 3, "chain") {
+			q.BufCap = Chain
 		}
 	case QInBound, QInBoundMatching:
 		q.Box = w.QueryBox(s)
@@ -367,6 +373,8 @@ func (w *World) DrawQuery(s *core.Source, kind int) *Query {
 		}
 		if s.Chance(1, 2, "buf") {
 			q.BufCap = s.Range(0, 12, "bufcap")
+		} else if s.Chance(1, 3, "chain") {
+			q.BufCap = Chain
 		}
 	}
 	return q
@@ -392,7 +400,10 @@ func (q *Query) String() string {
 // sentinel fills caller-supplied buffers so stale entries are recognisable.
 var sentinel = &Pt{ID: -1}
 
-func (q *Query) buf() []orb.Pointer {
+func (q *Query) buf(prev []orb.Pointer) []orb.Pointer {
+	if q.BufCap == Chain {
+		return prev
+	}
 	if q.BufCap < 0 {
 		return nil
 	}
@@ -410,8 +421,20 @@ type Result struct {
 	IsOne bool
 }
 
-// Exec runs the query against the tree.
-func (q *Query) Exec(tr *quadtree.Quadtree) Result {
+// Exec runs the query against the tree (a chained query gets no buffer).
+func (q *Query) Exec(tr *quadtree.Quadtree) Result { return q.ExecBuf(tr, nil) }
+
+// Clone returns the result with its own copy of the slice.
+func (r Result) Clone() Result {
+	if r.Many != nil {
+		r.Many = append(make([]orb.Pointer, 0, len(r.Many)), r.Many...)
+	}
+	return r
+}
+
+// ExecBuf runs the query; prev is the slice the caller got from its previous
+// query, which a chained query hands back as its buffer.
+func (q *Query) ExecBuf(tr *quadtree.Quadtree, prev []orb.Pointer) Result {
 	switch q.Kind {
 	case QFind:
 		return Result{One: tr.Find(q.P), IsOne: true}
@@ -419,18 +442,18 @@ func (q *Query) Exec(tr *quadtree.Quadtree) Result {
 		return Result{One: tr.Matching(q.P, q.F.Func()), IsOne: true}
 	case QKNearest:
 		if q.MaxDist >= 0 {
-			return Result{Many: tr.KNearest(q.buf(), q.P, q.K, q.MaxDist)}
+			return Result{Many: tr.KNearest(q.buf(prev), q.P, q.K, q.MaxDist)}
 		}
-		return Result{Many: tr.KNearest(q.buf(), q.P, q.K)}
+		return Result{Many: tr.KNearest(q.buf(prev), q.P, q.K)}
 	case QKNearestMatching:
 		if q.MaxDist >= 0 {
-			return Result{Many: tr.KNearestMatching(q.buf(), q.P, q.K, q.F.Func(), q.MaxDist)}
+			return Result{Many: tr.KNearestMatching(q.buf(prev), q.P, q.K, q.F.Func(), q.MaxDist)}
 		}
-		return Result{Many: tr.KNearestMatching(q.buf(), q.P, q.K, q.F.Func())}
+		return Result{Many: tr.KNearestMatching(q.buf(prev), q.P, q.K, q.F.Func())}
 	case QInBound:
-		return Result{Many: tr.InBound(q.buf(), q.Box)}
+		return Result{Many: tr.InBound(q.buf(prev), q.Box)}
 	default:
-		return Result{Many: tr.InBoundMatching(q.buf(), q.Box, q.F.Func())}
+		return Result{Many: tr.InBoundMatching(q.buf(prev), q.Box, q.F.Func())}
 	}
 }
 
